@@ -12,6 +12,9 @@ TUS = {
     "t_arith": {"sources": ["t_arith.cpp"], "parts": INT_PARTS},
     "t_cmp": {"sources": ["t_cmp.cpp"], "parts": INT_PARTS + FLT_PARTS},
     "t_bit": {"sources": ["t_bit.cpp"], "parts": INT_PARTS},
+    "t_bitwise": {"sources": ["t_bitwise.cpp"], "parts": INT_PARTS},
+    "t_shiftc": {"sources": ["t_shiftc.cpp"], "parts": INT_PARTS},
+    "t_div": {"sources": ["t_div.cpp"], "parts": INT_PARTS},
     "t_select": {"sources": ["t_select.cpp"], "parts": INT_PARTS + FLT_PARTS},
 }
 
@@ -74,6 +77,27 @@ PROPS = {
         "explanation": "selection and ordering operations on every tuple; masks are constructed from raw representation bytes by the harness; "
                        "models in __int128 (average = trunc((a+b)/2), midpoint = a + trunc((b-a)/2)); float min/max/clamp compared by value on "
                        "non-NaN operands, sign-bit operations and blend/keep/clear compared bit for bit",
+        "assumptions": [],
+    },
+    "C04": {
+        "tus": ["t_bitwise", "t_shiftc"],
+        "configs": scalar_cfgs,
+        "rule": "values: every 8/16-bit value, the L32/L64 one-/two-bit, mask and boundary patterns; amounts: every shift amount 0..bits, rotation amounts "
+                "0..2*bits+1, k*bits+r, negative, +-2^31, +-2^62, LLONG_MIN/MAX (scalar forms) and 0..2*bits+1 plus K (per-lane forms); per-lane forms "
+                "carry a different amount in every lane; K x K in every lane against in-domain neighbour fills. non-trivial: amount 0 or bits (or outside 0..bits for rotations), "
+                "or bits moving across an 8/16/32-bit sub-lane boundary; for & | ^: both operands non-zero and different.",
+        "explanation": "bitwise operators, shifts by scalar / per-lane vector / compile-time constant and rotations in all three forms on every (value, amount) pair of the alphabet, "
+                       "against shift models with explicit full-width handling and rotation amounts reduced by a mathematical modulo",
+        "assumptions": ["shift amounts outside [0, bits] are outside the property and are never generated for the lane under check"],
+    },
+    "C05": {
+        "tus": ["t_div"],
+        "configs": int_cfgs,
+        "rule": "8-bit: all (dividend, divisor) pairs; 16-bit: D16xL16 u L16xD16 quick / all 2^32 pairs thorough; 32/64-bit: L x L plus the constructed family "
+                "{q*d+r : r in {0,1,d-1}}; every packed vector of the exhaustive passes contains zero divisors next to in-domain lanes; K x K in every lane with "
+                "zero-divisor and MIN/-1 neighbour fills (W>1). Out-of-domain lanes (d == 0, MIN/-1) are never executed for width 1 and are don't-care for W>1. "
+                "non-trivial: |quotient| >= 2.",
+        "explanation": "div(x,y).quot/.rem, x/y, x%y, /=, %= and quot*y+rem on every pair, against __int128 truncating division; SIGFPE in any vector op is a violation",
         "assumptions": [],
     },
 }
